@@ -6,6 +6,9 @@
 (* or fake signal).  obs[1] is the install callback.  Every observation must be *)
 (* explained by a step of the machine with exactly the observed outputs, and    *)
 (* every invariant / action property of C30 is evaluated along the trace.       *)
+(* With AllowKF the as-found constructor of KF-C30-1 is offered next to the     *)
+(* documented one; register Len(Traces)+tid tells which explains the trace:     *)
+(* 0 = none, 1 = the documented constructor does, 2 = only the as-found one.    *)
 EXTENDS Suspenders
 
 Traces == ndJsonDeserialize(IOEnv.TRACE_FILE)
@@ -14,11 +17,13 @@ VARIABLES tid, l
 tvars == <<vars, tid, l>>
 
 T == Traces[tid]
+NT == Len(Traces)
 
 TraceInit ==
     /\ tid \in 1..Len(Traces)
     /\ l = 1
     /\ TLCSet(tid, 1)
+    /\ TLCSet(NT + tid, 0)
     /\ cls = T.cls /\ par = T.par /\ v0 = T.v0 /\ running = T.running
     /\ cls \in AllClasses /\ Valid(cls, par)
     /\ \/ eff = Effective(cls, par, v0) /\ kf = FALSE
@@ -33,13 +38,15 @@ TraceNext ==
     /\ out' = [v |-> Ev.v, tripped |-> Ev.tripped, requested |-> Ev.requested, released |-> Ev.released, pending |-> Ev.pending]
     /\ l' = l + 1
     /\ UNCHANGED tid
-    /\ TLCSet(tid, l + 1)
+    /\ TLCSet(tid, IF TLCGet(tid) > l + 1 THEN TLCGet(tid) ELSE l + 1)
+    /\ (l = Len(T.obs)) => TLCSet(NT + tid, IF ~kf \/ TLCGet(NT + tid) = 1 THEN 1 ELSE 2)
 
 TraceSpec == TraceInit /\ [][TraceNext]_tvars
 
 Progress(t) == TLCGet(t)
 TraceAccepted ==
-    \A t \in 1..Len(Traces) :
+    /\ \A t \in 1..NT : TLCGet(NT + t) = 2 => PrintT(<<"KFONLY", t>>)
+    /\ \A t \in 1..Len(Traces) :
         \/ Progress(t) = Len(Traces[t].obs) + 1
         \/ PrintT(<<"REJECTED", t, Progress(t)>>) /\ FALSE
 =============================================================================
